@@ -55,6 +55,44 @@ func (r *recorder) logf(f string, a ...interface{}) {
 	r.mu.Unlock()
 }
 
+// probeCounts counts "this condition was reached" hits from any goroutine of a bubble.  (A plain map is
+// not enough even with one P: a goroutine can be descheduled inside a map write, in an allocation.)
+type probeCounts struct {
+	mu sync.Mutex
+	m  map[string]int
+}
+
+func newProbes() *probeCounts { return &probeCounts{m: map[string]int{}} }
+
+func (p *probeCounts) inc(k string) {
+	p.mu.Lock()
+	p.m[k]++
+	p.mu.Unlock()
+}
+
+func (p *probeCounts) snapshot() map[string]int {
+	p.mu.Lock()
+	defer p.mu.Unlock()
+	r := make(map[string]int, len(p.m))
+	for k, v := range p.m {
+		r[k] = v
+	}
+	return r
+}
+
+// modelLock serialises the harness's own bookkeeping (model state shared between the driver goroutine
+// and callbacks running on the library's goroutines).  The Go scheduler may switch goroutines at any
+// function call when the machine is overloaded (cooperative preemption requested by sysmon), so the
+// bookkeeping must not rely on "only one goroutine runs between two blocking operations".
+// Rules: never block, sleep or call into the library while holding it.
+type modelLock struct{ mu sync.Mutex }
+
+func (m *modelLock) do(f func()) {
+	m.mu.Lock()
+	defer m.mu.Unlock()
+	f()
+}
+
 // runBubble runs body inside a fresh bubble.  It returns a non-empty string when the bubble ended
 // in a deadlock (goroutines left blocked for ever) or a panic escaped body.
 func runBubble(t *testing.T, body func()) (trouble string) {
